@@ -185,9 +185,9 @@ func (h *harness) txResult(route string, txBz []byte, code uint32, codespace, lo
 			recovery = "recovered-by-baseapp"
 			o.Site, o.Top = panicSite(strings.SplitN(log, "stack:\n", 2)[len(strings.SplitN(log, "stack:\n", 2))-1])
 			switch {
-			case strings.Contains(o.Site, "/keeper.") || strings.Contains(o.Site, "/keeper/") || strings.Contains(o.Site, "/precompile."):
+			case strings.Contains(log, "MsgServiceRouter"):
 				stage = "handler"
-			case strings.Contains(o.Site, "ValidateBasic") || strings.Contains(o.Site, "validateBasic") || strings.Contains(o.Site, "/types."):
+			case strings.Contains(log, "validateBasicTxMsgs"):
 				stage = "validate"
 			default:
 				stage = "runtx"
@@ -292,7 +292,8 @@ func (h *harness) anyOf(m proto.Message) *codectypes.Any {
 	return &codectypes.Any{TypeUrl: "/" + proto.MessageName(m), Value: bz}
 }
 
-func (h *harness) stageAnte() {
+// newAnteEnv funds the harness accounts (and a 2-of-3 multisig account over three of them) and commits a block.
+func (h *harness) newAnteEnv() *anteEnv {
 	e := &anteEnv{}
 	for _, k := range h.p.keys {
 		h.c.Mint(k.Acc(), lib.FX(1_000_000))
@@ -302,6 +303,11 @@ func (h *harness) stageAnte() {
 	h.c.Mint(sdk.AccAddress(e.multi.Address()), lib.FX(1_000_000))
 	lib.Must(h.c.NextBlock())
 	h.refreshAccounts(e)
+	return e
+}
+
+func (h *harness) stageAnte() {
+	e := h.newAnteEnv()
 	fee := sdk.NewCoins(lib.FX(10))
 	a0 := e.accts[0]
 	send := func(a *acct) *codectypes.Any {
@@ -535,10 +541,14 @@ func (h *harness) deliverStage(e *anteEnv, fee sdk.Coins) {
 				ops := []string{"drop", "empty"}
 				for _, op := range ops {
 					if m, ok := applyWire(bz, wireOp{Path: path, Op: op}); ok {
-						if h.scale == 1 && len(paths) > 12 && h.r.Chance(40) {
-							continue
-						}
 						items = append(items, item{&codectypes.Any{TypeUrl: mt.URL, Value: m}, fmt.Sprintf("%s field %v of %s on %s", op, path, tname, chain)})
+					}
+				}
+				// a text that is neither hex, nor an address, nor a number: reaches the Must* conversions of a handler
+				// whenever ValidateBasic forgot to look at the field
+				if chain == "eth" {
+					if m, ok := applyWire(bz, wireOp{Path: path, Op: "set", Set: []byte("zz")}); ok {
+						items = append(items, item{&codectypes.Any{TypeUrl: mt.URL, Value: m}, fmt.Sprintf("set field %v of %s to \"zz\"", path, tname)})
 					}
 				}
 			}
